@@ -283,3 +283,58 @@ def replay(res, path):
         return None
     print(json.dumps(v, indent=1, ensure_ascii=False)[:3000])
     return common.replay_generic(res, path, canon=lambda name, ln, out: _cm(ln, out), model_canon=_cm)
+
+
+PYAST_ITEMS = ['a1', 'b2', 'a[1]', 'a[0]', 'a[-1]', 'a[True]', 'a[1.0]', 'a[1:2]', 'a["name two"]', "b['k']", 'a.name', 'b.id', 'c.id', 'a.b.c', 'x.a', 'NR', 'NF', 'a0', 'a007', 'b12',
+               '__RBQL_INTERNAL_STAR', 'a.__RBQL_INTERNAL_STAR', 'b.__RBQL_INTERNAL_STAR', 'c.__RBQL_INTERNAL_STAR', '(a1)', '(a1, a2)', '[a1, a2]', 'a1 + 1', 'f(a1)', 'a1 if a2 else a3',
+               'alias_column_as_pseudo_func(foo)', 'a1 + alias_column_as_pseudo_func(bar)', 'f(alias_column_as_pseudo_func(x), alias_column_as_pseudo_func(y))',
+               'g(h(alias_column_as_pseudo_func(deep)), alias_column_as_pseudo_func(shallow))', 'alias_column_as_pseudo_func(a, b)', 'alias_column_as_pseudo_func()',
+               'alias_column_as_pseudo_func(1)', 'alias_column_as_pseudo_func(a.b)', 'x.alias_column_as_pseudo_func(z)', 'alias_column_as_pseudo_func(q).attr', 'alias_column_as_pseudo_func(q)[0]',
+               'a[alias_column_as_pseudo_func(w)]', 'f(k=alias_column_as_pseudo_func(kw))', 'f(*alias_column_as_pseudo_func(st))', 'lambda: alias_column_as_pseudo_func(lam)',
+               '"lit"', "'a1'", '1', 'None', 'a1 == 2', 'not a1', '-a1', 'a[b1]', 'a[b[1]]', 'a["x"]["y"]', 'a.x.y', 'a1.upper()', 'len(a.name)', 'a1,', '*a1', 'a = 1', 'a1; a2', '']
+
+
+def pyast_leg(res, tier, seed):
+    """the Python `ast` route to column infos: Model/PyAst.lean (pyColumnInfos) fed with the tree the REAL parser builds, against the real
+    ast_parse_select_expression_to_column_infos.  Two phases: the implementation driver parses each text and answers; the model is then given the tree."""
+    rnd = random.Random(seed * 6007 + 17)
+    quick = tier == 'quick'
+    texts = list(PYAST_ITEMS)
+    for _ in range(3000 if quick else 40000):
+        k = rnd.randint(1, 4)
+        texts.append(rnd.choice(['', ' ']) + rnd.choice([', ', ',', ' , ']).join(rnd.choice(PYAST_ITEMS[:-4]) for _i in range(k)) + rnd.choice(['', '', ',', ' ']))
+    for text, lits in gen_select_lists(rnd, 1500 if quick else 20000, 'py'):
+        try:
+            import sys
+            sys.path.insert(0, str(common.REPO / 'rbql-py'))
+            from rbql import rbql_engine
+            _t, for_ast = rbql_engine.translate_select_expression(text)
+            texts.append(rbql_engine.combine_string_literals(for_ast, lits))
+        except Exception:
+            pass
+    texts = list(dict.fromkeys(texts))
+    outs = common.run_impl_py(['pyastinfos %s' % enc_str(t) for t in texts])
+    lines, wants, kept = [], [], []
+    nsyntax = 0
+    for t, o in zip(texts, outs):
+        if o == 'SYNTAX' or '\t' not in o:
+            nsyntax += 1
+            continue
+        js, ans = o.split('\t', 1)
+        lines.append('pyinfos ' + js)
+        wants.append(ans)
+        kept.append(t)
+    mout = common.run_model(lines)
+    res.evaluations += len(lines)
+    nbad = 0
+    for t, m, w in zip(kept, mout, wants):
+        res.nontrivial.add(('pyast', t))
+        res.count('pyast_outcome=%s' % w.split(' ')[0] + (' ' + w.split(' ')[1] if w.startswith('err') else ''))
+        if m != w:
+            nbad += 1
+            if nbad <= 3:
+                res.violations.append({'property': res.prop, 'impl': 'py', 'why': 'the Python ast route to column infos differs from its model (Model/PyAst.lean) on the tree the real parser builds',
+                                       'select_list': t, 'model_says': m, 'impl_says': w, 'case_key': '%s|pyast|%s' % (res.prop, t)})
+    res.count('pyast_texts', len(lines))
+    res.count('pyast_not_python_syntax', nsyntax)
+    res.count('pyast_disagreements', nbad)
